@@ -192,4 +192,8 @@ theorem C19_format_start_generated (D : Desc) (s : St) (f : Fsm) :
   ⟨startFormatRead_generated D s f, startFormatTest_generated D s f, endOk_generated D s f, endError_generated D s f,
    setPos_generated D s f⟩
 
+/-- starting the command list (translator item T14) -/
+theorem C19_list_start_generated (D : Desc) (s : St) : startPrintCmdList D s = Gen.start_print_cmd_list D s :=
+  startPrintCmdList_generated D s
+
 end Cat
